@@ -230,13 +230,10 @@ fn exec<F: Flavour>(w: &mut World<F>, extras: &mut Vec<F::Node>, op: &TOp) -> Ob
                     let mut d: Vec<(usize, u32, Vec<(usize, u64)>, Vec<(usize, u64)>)> = F::g_iter(&g2)
                         .iter()
                         .map(|(k, n)| {
-                            let (mut o, mut i) = World::<F>::lists_of(n);
-                            // the order of a copy's incoming list follows the container order of
-                            // the serialising side ("up to container order")
-                            i.sort();
-                            if !F::DIRECTED {
-                                o.sort();
-                            }
+                            // (both sides serialise and rebuild under the same simulated hash
+                            // seeds, so the copies' lists agree entry by entry: which endpoint
+                            // of an undirected edge lists it first included)
+                            let (o, i) = World::<F>::lists_of(n);
                             (*k, F::prio(n), o, i)
                         })
                         .collect();
